@@ -60,6 +60,8 @@ impl CompressedColumnIndex {
         file.write_all(&header_buf)
             .await
             .map_err(|e| StoreError::FlushFailed(format!("Failed to write header: {}", e)))?;
+        #[cfg(sneldb_verif)]
+        crate::verif::step("zfc.header_written", "");
 
         // Write entries
         let mut entries: Vec<_> = self.entries.values().cloned().collect();
